@@ -164,6 +164,17 @@ Theorem astype_keeps_product_weightings_refuted :
 Proof. exact prodw_refuted. Qed.
 Print Assumptions astype_keeps_product_weightings.
 
+(* real / complex counterparts (any variant, any nesting): same shapes / partitions / product
+   structure; every leaf dtype is real (resp. complex floating) according to the is_real_dtype /
+   is_complex_floating_dtype / TYPE_MAP_C2R / TYPE_MAP_R2C tables regenerated from odl.util *)
+Theorem real_space_is_real_counterpart : forall dv (a : obj R) b, oreal_space dv a = Ok b ->
+  skel_of b = skel_of a /\ Forall (fun t => is_real_dt (ts_dtype t) = true) (leaves b).
+Proof. exact (@oreal_space_spec R _). Qed.
+Theorem complex_space_is_complex_counterpart : forall dv (a : obj R) b, ocomplex_space dv a = Ok b ->
+  skel_of b = skel_of a /\ Forall (fun t => is_complex_floating (ts_dtype t) = true) (leaves b).
+Proof. exact (@ocomplex_space_spec R _). Qed.
+Print Assumptions real_space_is_real_counterpart.
+
 (* Python slices: every selected position is a valid index, for all n, start, stop, step *)
 Theorem slice_positions_valid : forall n s ps, (0 <= n)%Z ->
   slice_positions n s = Ok ps -> Forall (fun p => 0 <= p < n)%Z ps.
